@@ -32,9 +32,17 @@ Eof(za, msg) == S3!Hash(za \o msg)
 
 InsSame(ev, ins) == ev.ins_after = ins
 
-\* ---- expected outcome of a signing call with digest e
+\* ---- expected outcome of a signing call with digest e.  When the event carries x1 (the
+\* verification hook substituted the x coordinate of [k]G for every candidate) the loop is the
+\* same machine over AttemptInjected.
+FlowSign(ev, e) ==
+  IF "x1" \in DOMAIN ev
+  THEN LET FX == INSTANCE SignFlow WITH Unit <- 32, ValidKey <- ValidNum, ToNum <- Ident,
+                                       AttemptOp <- LAMBDA dd, ee, kk : C!S!AttemptInjected(dd, ee, kk, ev.x1)
+       IN FX!Sign(ev.priv, e, ev.script)
+  ELSE F!Sign(ev.priv, e, ev.script)
 SignOK(ev, e) ==
-  LET f == F!Sign(ev.priv, e, ev.script)
+  LET f == FlowSign(ev, e)
       consumed == R!Delivered(ev.reads)
   IN IF ~KeyOK(ev.priv)
      THEN \* refused keys: error, nothing returned, nothing drawn.  (A longer-than-32-byte
@@ -52,12 +60,13 @@ RuleTrail(ev, e) ==
   LET RECURSIVE T(_, _)
       T(sc, acc) == LET rf == R!ReadFull(sc, 32, <<>>)
                     IN IF ~rf.ok THEN acc
-                       ELSE LET a == C!S!Attempt(ev.priv, e, rf.data)
+                       ELSE LET a == IF "x1" \in DOMAIN ev THEN C!S!AttemptInjected(ev.priv, e, rf.data, ev.x1)
+                                     ELSE C!S!Attempt(ev.priv, e, rf.data)
                             IN IF a.skip THEN T(rf.sc, acc \o a.why \o ",") ELSE acc \o "ok"
   IN T(ev.script, "")
 
 SignWhy(ev, e) ==
-  LET f == F!Sign(ev.priv, e, ev.script)
+  LET f == FlowSign(ev, e)
   IN IF ev.panic # "" THEN "sign: panic"
      ELSE IF ~KeyOK(ev.priv) THEN "sign: invalid key not refused"
      ELSE IF f.kind = "err" THEN "sign: reader failure mishandled"
